@@ -17,8 +17,8 @@ import (
 
 const crcAxioms = `
 (declare-fun crcU ((_ BitVec 32) (Array (_ BitVec 64) (_ BitVec 8)) (_ BitVec 64) (_ BitVec 64)) (_ BitVec 32))
-(assert (forall ((c (_ BitVec 32)) (a (Array (_ BitVec 64) (_ BitVec 8))) (lo (_ BitVec 64)))
-  (! (= (crcU c a lo lo) c) :pattern ((crcU c a lo lo)))))
+(assert (forall ((c (_ BitVec 32)) (a (Array (_ BitVec 64) (_ BitVec 8))) (lo (_ BitVec 64)) (hi (_ BitVec 64)))
+  (! (=> (= lo hi) (= (crcU c a lo hi) c)) :pattern ((crcU c a lo hi)))))
 (assert (forall ((c (_ BitVec 32)) (a (Array (_ BitVec 64) (_ BitVec 8))) (lo (_ BitVec 64)) (mid (_ BitVec 64)) (hi (_ BitVec 64)))
   (! (=> (and (bvsle lo mid) (bvsle mid hi))
          (= (crcU (crcU c a lo mid) a mid hi) (crcU c a lo hi)))
@@ -121,10 +121,19 @@ func (o *Obl) BuildQuery() string {
 		}
 	}
 	for _, a := range axs {
+		if o.Expect == "sat" && strings.Contains(a, "(forall ") {
+			continue
+		}
 		fmt.Fprintf(&body, "(assert %s)\n", a)
 	}
 	for _, a := range asserts {
 		if a == "true" {
+			continue
+		}
+		if o.Expect == "sat" && strings.Contains(a, "(forall ") {
+			// reachability covers drop quantified assumptions (solvers cannot
+			// build models for them); the cover is then an over-approximation
+			body.WriteString("; (quantified assumption omitted in cover query)\n")
 			continue
 		}
 		fmt.Fprintf(&body, "(assert %s)\n", a)
@@ -162,7 +171,10 @@ type solveResult struct {
 }
 
 // runPortfolio runs the solvers staggered; first definitive answer wins.
-func runPortfolio(file string, timeoutMs int, all bool) solveResult {
+// preFile, if non-empty, is the pre-instantiated (weakened, quantifier-free)
+// variant of the query: an `unsat` answer on it proves the obligation, any
+// other answer on it is ignored.
+func runPortfolio(file, preFile string, timeoutMs int, all bool) solveResult {
 	ctx, cancel := context.WithTimeout(context.Background(), time.Duration(timeoutMs+2000)*time.Millisecond)
 	defer cancel()
 	type ans struct {
@@ -171,12 +183,26 @@ func runPortfolio(file string, timeoutMs int, all bool) solveResult {
 		out    string
 		ms     int64
 	}
-	ch := make(chan ans, len(solvers))
+	type job struct {
+		s    solverSpec
+		file string
+		pre  bool
+	}
+	var jobs []job
+	jobs = append(jobs, job{solvers[0], file, false})
+	if preFile != "" {
+		jobs = append(jobs, job{solvers[2], preFile, true})
+	}
+	jobs = append(jobs, job{solvers[1], file, false}, job{solvers[2], file, false})
+	if preFile != "" {
+		jobs = append(jobs, job{solvers[0], preFile, true}, job{solvers[1], preFile, true})
+	}
+	ch := make(chan ans, len(jobs))
 	start := time.Now()
-	launch := func(s solverSpec) {
+	launch := func(j job) {
 		go func() {
 			t0 := time.Now()
-			args := s.args(file, timeoutMs)
+			args := j.s.args(j.file, timeoutMs)
 			cmd := exec.CommandContext(ctx, args[0], args[1:]...)
 			var out bytes.Buffer
 			cmd.Stdout = &out
@@ -187,15 +213,22 @@ func runPortfolio(file string, timeoutMs int, all bool) solveResult {
 			if first == "unsat" || first == "sat" {
 				st = first
 			}
-			ch <- ans{s.name, st, out.String(), time.Since(t0).Milliseconds()}
+			name := j.s.name
+			if j.pre {
+				name += "+preinst"
+				if st == "sat" {
+					st = "unknown" // weakened query: sat means nothing
+				}
+			}
+			ch <- ans{name, st, out.String(), time.Since(t0).Milliseconds()}
 		}()
 	}
 	res := solveResult{status: "unknown", all: map[string]string{}}
 	if all {
-		for _, s := range solvers {
-			launch(s)
+		for _, j := range jobs {
+			launch(j)
 		}
-		for range solvers {
+		for range jobs {
 			a := <-ch
 			res.all[a.name] = a.status
 			if a.status != "unknown" && res.status == "unknown" {
@@ -207,12 +240,25 @@ func runPortfolio(file string, timeoutMs int, all bool) solveResult {
 		}
 		return res
 	}
-	launch(solvers[0])
-	launched := 1
-	pending := 1
+	first := 1
+	if preFile != "" {
+		first = 2
+	}
+	for _, j := range jobs[:first] {
+		launch(j)
+	}
+	launched := first
+	pending := first
 	stagger := time.NewTimer(1200 * time.Millisecond)
 	defer stagger.Stop()
 	var outs []string
+	launchRest := func() {
+		for _, j := range jobs[launched:] {
+			launch(j)
+			pending++
+		}
+		launched = len(jobs)
+	}
 	for pending > 0 {
 		select {
 		case a := <-ch:
@@ -224,20 +270,12 @@ func runPortfolio(file string, timeoutMs int, all bool) solveResult {
 				return res
 			}
 			outs = append(outs, "["+a.name+"] "+strings.TrimSpace(a.out))
-			if launched < len(solvers) {
-				for _, s := range solvers[launched:] {
-					launch(s)
-					pending++
-				}
-				launched = len(solvers)
+			if launched < len(jobs) && pending == 0 {
+				launchRest()
 			}
 		case <-stagger.C:
-			if launched < len(solvers) {
-				for _, s := range solvers[launched:] {
-					launch(s)
-					pending++
-				}
-				launched = len(solvers)
+			if launched < len(jobs) {
+				launchRest()
 			}
 		}
 	}
@@ -266,9 +304,12 @@ func getModel(query string, backend string, dir string) string {
 // SolveAll discharges obligations in parallel.
 func SolveAll(obls []*Obl, workDir string, timeoutMs int, all bool) {
 	os.MkdirAll(workDir, 0755)
-	nw := runtime.NumCPU()
-	if nw > 16 {
-		nw = 16
+	nw := runtime.NumCPU() / 2
+	if nw > 8 {
+		nw = 8
+	}
+	if nw < 1 {
+		nw = 1
 	}
 	// cover obligations of the same name: stop after the first sat
 	var mu sync.Mutex
@@ -298,7 +339,15 @@ func SolveAll(obls []*Obl, workDir string, timeoutMs int, all bool) {
 			o.Query = q
 			f := filepath.Join(workDir, fmt.Sprintf("q%05d.smt2", i))
 			os.WriteFile(f, []byte(q), 0644)
-			r := runPortfolio(f, timeoutMs, all && o.Expect != "sat")
+			pf := ""
+			if o.Expect != "sat" {
+				if pq := PreInstantiate(q, 3); pq != "" {
+					pf = filepath.Join(workDir, fmt.Sprintf("q%05d.pre.smt2", i))
+					os.WriteFile(pf, []byte(pq), 0644)
+					defer os.Remove(pf)
+				}
+			}
+			r := runPortfolio(f, pf, timeoutMs, all && o.Expect != "sat")
 			o.Backend, o.Ms = r.backend, r.ms
 			if o.Expect == "sat" {
 				switch r.status {
